@@ -21,7 +21,7 @@ CHECKS = {
 
  'C07': ('model_checking',
          'explicit enumeration of all registration tables / mutation scripts / packet sequences up to a bound on the real dispatcher, against a reference table model',
-         'The real _IncomingPacketHandler.run() is executed for all 256 headers x 1088 registrations and for every '
+         'Part D (threads): the real dispatcher thread and a user thread under the controlled scheduler, a scheduling point at every line of the dispatcher class, 12 configurations (user adds / removes a registration while a callback removes itself / adds / removes / does nothing), every vector of <= 2 (thorough 3) deviations. The real _IncomingPacketHandler.run() is executed for all 256 headers x 1088 registrations and for every '
          'registration list up to length 3 (quick) / 4 (thorough) in which each callback performs one scripted table '
          'mutation or raises, over 4 packet sequences; every execution is compared with an independent reference '
          'model of the table (exactly-once, table order, no non-matching delivery, survival after raise, removal '
@@ -74,7 +74,7 @@ CHECKS = {
          'DESIGN.md §3 C14', 'enumeration'),
  'C10': ('exploration',
          'stateless deviation-bounded exploration of loss/delay patterns, close/reopen times and timer-vs-dispatcher orders on the real retry code in virtual time',
-         'The real Crazyflie.send_packet / retry timers / dispatcher run against a silent simulated device under the '
+         'Also: a focused line-level search (any first deviation + 1-2 switches at the lines of the retry machinery) and the two-deviation exploration of a second user sending across close/re-open. The real Crazyflie.send_packet / retry timers / dispatcher run against a silent simulated device under the '
          'controlled scheduler. 22 scenarios (a second user thread sending across close/re-open, hand-off default schedule, single request with 0.2 s and 1 s timeout, prefix-sharing patterns in both '
          'issue orders, unsolicited packet matching several pending patterns, close, close+reopen inside and at the retry '
          'instant, reliable link) are explored with every single deviation and (3 scenarios quick / all thorough) every '
@@ -88,7 +88,7 @@ CHECKS = {
          'DESIGN.md §3 C10', 'E3'),
  'C20': ('exploration',
          'exhaustive enumeration of the URI grammar product and of driver lists against an independent parser',
-         'Every URI of the radio grammar product (11 dongle ids incl. case-varied and all-digit serials, channels 0..125, 3 '
+         'Also: every ordered pair of dongle plug states for serial-number ids (parse, replug, parse again) and the serial driver enabled without pyserial. Every URI of the radio grammar product (11 dongle ids incl. case-varied and all-digit serials, channels 0..125, 3 '
          'rates, 363 address strings of every length 1..10 in three letter cases, 4 omitted-field shapes, 8 query strings) '
          'goes through the real RadioDriver.parse_uri and a stated subset through get_link_driver onto a scripted USB dongle '
          '(settings in force at each transmission are observed); scan_interface for 13 addresses over scripted populations; '
@@ -99,7 +99,7 @@ CHECKS = {
          'DESIGN.md §3 C20', 'enumeration'),
  'C06': ('exploration',
          'exhaustive input enumeration plus stateless deviation-bounded exploration of reply faults, link loss and schedules on the real Memory subsystem',
-         'Part A drives every (memory id in {0,1,255}) x (7 start addresses incl. chunk boundaries and the top of the 32-bit '
+         'Also: four long transfers (2500-5100 bytes), focused line-level searches (one reply fault / link loss / second-user request + 1-2 thread switches at the lines of the memory subsystem), link lost at any point followed by a second user\'s request within 30 points, two user threads at line level. Part A drives every (memory id in {0,1,255}) x (7 start addresses incl. chunk boundaries and the top of the 32-bit '
          'space) x (read lengths 0..61, write lengths 0..76, with and without progress callback) through the real Memory '
          'class against a sparse device image: returned bytes, final image, request/chunk tiling (<= 20 / <= 25 bytes, '
          'ascending, once), exactly one notification, no lock or record left. Part B explores 25 operation sequences (1-3 '
@@ -188,7 +188,7 @@ CHECKS = {
          'DESIGN.md §3 C16', 'enumeration'),
  'C18': ('model_checking',
          'bounded exhaustive exploration of stream fragmentations, packet sequences and router/receiver interleavings on the real CPX code',
-         'Complete codec alphabet (4x4x7x2 headers x payload lengths 0-64 and boundary lengths, all 65 536 header byte pairs '
+         'Also: every interleaving of the socket send calls of 2 and 3 application threads (whole frames must result), and delivery of packets behind a rejected one. Complete codec alphabet (4x4x7x2 headers x payload lengths 0-64 and boundary lengths, all 65 536 header byte pairs '
          'against an independent reference); every stream of 1-4 packets up to 14 (quick) / 18 (thorough) bytes under all '
          '2^(n-1) recv fragmentations through the real SocketTransport.readPacket, long frames under all single cuts and all '
          'compositions of the leading bytes; all packet sequences of length <= 4/5 over three functions plus a bad-version '
@@ -227,7 +227,7 @@ CHECKS = {
          'DESIGN.md §3 C17', 'E3'),
  'C12': ('exploration',
          'exhaustive enumeration of flash geometries, image lengths and flash-write reply patterns on the real bootloader code against a simulated target',
-         'The real Bootloader.start_bootloader/_internal_flash/flash and Cloader._update_info/upload_buffer/write_flash run '
+         'Also: flash() of a release that replaces the nRF51 bootloader + soft device (the simulated bootloader restarts with another start page), whole flash compared with the exact expected layout; the fake link keeps the packet object until the next link call (as the radio driver\'s queue does). The real Bootloader.start_bootloader/_internal_flash/flash and Cloader._update_info/upload_buffer/write_flash run '
          'against a simulated two-target bootloader device for every combination of page size {16,25,26,50,64; thorough 11 '
          'sizes plus 256/1024}, buffer pages {1,2,3,10(,4)}, flash pages {4,8,128}, start page {0,1,3}, override page '
          '{none,2; thorough also at the flash end}, target {stm32,nrf51} and every image length from 1 to '
@@ -258,7 +258,7 @@ CHECKS = {
          'DESIGN.md §3 C09', 'enumeration'),
  'C01': ('model_checking',
          'explicit-state breadth-first search with state de-duplication to a fixpoint over the real radio driver loop against an alternating-bit peer model',
-         'Explicit-state model checking of the real _RadioDriverThread.run, _send_packet_safe, RadioDriver.send_packet / '
+         'The application may also submit its next packet while a frame is in the air; the packet alphabets contain a header-only uplink packet and a port-15/channel-3 downlink packet with data; the dongle answers with both spellings of ack / no-ack status bytes; a second driver thread is started on a radio whose previous thread confirmed safelink. Explicit-state model checking of the real _RadioDriverThread.run, _send_packet_safe, RadioDriver.send_packet / '
          'receive_packet and Crazyradio.send_packet (scripted USB endpoint): the environment is a non-deterministic lossy '
          'channel ({uplink lost, delivered+acked, delivered with ack lost} per transmission, 10 start-up reply kinds), an '
          'alternating-bit safelink peer and an application submitting or idling at every loop. BFS over all choice histories '
